@@ -7,7 +7,8 @@ spec/DTD/SeqTraceValues.tla  1-4 processes: the Owner(d, v) events logged by the
 spec/DTD/SeqTrace.tla        same on one process, with the ordering guard
 Programs: TLC -simulate of Seq with affinities over 0..3 (task placed by a PARSEC_VALUE|PARSEC_AFFINITY rank), run by
 harness/dtd/run_prog.c with flush_all, or parsec_dtd_data_flush of a random subset of the data followed by flush_all (every datum has to be
-flushed before the wait).
+flushed before the wait).  A program found by these runs (a flushed value copied over the owner's copy while an earlier
+local reader is pending, 1-2 % of its executions on 2 processes) is repeated 200 / 1500 times.
 """
 import json
 
